@@ -74,11 +74,11 @@ type CaseC06Static struct {
 var c06RTRec = vt.NewRecorder("C06", "TestC06Realtime",
 	"realtime targets with >=3 id-bearing vehicles, alerts naming >=2 fallback routes, elevator alert groups and NYCT trips, x extension configuration {Extension nil, explicit no-op, NYCT trips 2x2, NYCT alerts 4x2x2x2} "+
 		"x a generated history of 0-4 earlier messages (same generator, so elevator ids recur) parsed through the SAME options/extension object. Oracle (differential): 8 parses with fresh options agree in content AND order of every slice; "+
-		"the parse after the history with the shared object equals the parse with a fresh equivalent object; the input buffer is unchanged; (driver) a second process runs the same seed but executes only every other case; the digests of the cases both executed must be identical (cross-process determinism and freedom from state left behind by other cases, whatever their options). "+
+		"the parse after the history with the shared object equals the parse with a fresh equivalent object; the FIRST result object, held throughout, has the same normal form after all later calls; the input buffer is unchanged; (driver) a second process runs the same seed but executes only every other case; the digests of the cases both executed must be identical (cross-process determinism and freedom from state left behind by other cases, whatever their options). "+
 		"Non-trivial = the result has >=2 items in a map-built collection (vehicles with id, route-level informed entities) or the history is non-empty with a stateful extension")
 
 var c06StaticRec = vt.NewRecorder("C06", "TestC06Static",
-	"static feeds with >=3 services (and every other collection) x presentation x 0-3 earlier parses of other feeds. Oracle: 8 parses agree in content and order of every slice including Services; the parse after the history equals the first; "+
+	"static feeds with >=3 services (and every other collection) x presentation x 0-3 earlier parses of other feeds. Oracle: 8 parses agree in content and order of every slice including Services; the parse after the history equals the first; the first result object, held throughout, has the same normal form after all later calls; "+
 		"the input bytes are unchanged; digests agree across processes. Non-trivial = >=3 services")
 
 func init() {
